@@ -45,6 +45,8 @@ type cnTxSpec struct {
 	Gov      string `json:"gov,omitempty"`      // regruntime: entity | runtime
 	Shape    string `json:"shape,omitempty"`    // regruntime: "g<workers>b<backups>m<max nodes per entity, 0 = unset>p<min pool: workers+this>v<validator-set constraint 0/1>s<allowed stragglers>"
 	Slash    string `json:"slash,omitempty"`    // regruntime: "<amount>:<runtime share % for equivocation>:<runtime share % for incorrect results>" (per-runtime slashing)
+	InMsgs   string `json:"inmsgs,omitempty"`   // regruntime: "<max incoming messages>:<minimum incoming message fee>"
+	MsgFee   int64  `json:"msgfee,omitempty"`   // submitmsg: the fee sent into the runtime with the message (spec.Amount = tokens)
 	VAct     string `json:"vact,omitempty"`     // vcreate: "<admins>/<threshold>;<suspenders>/<threshold>"; vauth: action descriptor (cons_vault.go parseAction)
 	Entity   string `json:"entity,omitempty"`   // regnode: register the node under this entity instead of its own
 	Sched    string `json:"sched,omitempty"`    // rhcommit: the scheduler whose proposal the commitment is for
@@ -132,7 +134,7 @@ func (n *cnNet) buildTx(spec *cnTxSpec, rng *rand.Rand) ([]byte, error) {
 		return nil, fmt.Errorf("unknown signer %s", spec.Signer)
 	}
 	var to staking.Address
-	if spec.To != "" && spec.Kind != "unfreeze" && spec.Kind != "regruntime" && spec.Kind != "rhcommit" && spec.Kind != "vauth" && spec.Kind != "vcancel" {
+	if spec.To != "" && spec.Kind != "unfreeze" && spec.Kind != "regruntime" && spec.Kind != "rhcommit" && spec.Kind != "submitmsg" && spec.Kind != "vauth" && spec.Kind != "vcancel" {
 		switch spec.To {
 		case "POOL":
 			to = staking.CommonPoolAddress
@@ -303,8 +305,19 @@ func (n *cnNet) buildTx(spec *cnTxSpec, rng *rand.Rand) ([]byte, error) {
 			rt.Staking.RewardSlashEquvocationRuntimePercent = uint8(pe)
 			rt.Staking.RewardSlashBadResultsRuntimePercent = uint8(pb)
 		}
+		if spec.InMsgs != "" {
+			var mx, mf int
+			if _, err := fmt.Sscanf(spec.InMsgs, "%d:%d", &mx, &mf); err != nil {
+				return nil, fmt.Errorf("bad inmsgs spec %q", spec.InMsgs)
+			}
+			rt.TxnScheduler.MaxInMessages = uint32(mx)
+			rt.Staking.MinInMessageFee = qq(int64(mf))
+		}
 		rt.Genesis.StateRoot.Empty()
 		tx = registry.NewRegisterRuntimeTx(spec.Nonce, fee, rt)
+	case "submitmsg":
+		// spec.To names the runtime; the tokens and the message fee are moved to the runtime's account, the message is queued
+		tx = roothash.NewSubmitMsgTx(spec.Nonce, fee, &roothash.SubmitMsg{ID: runtimeID(spec.To), Tag: uint64(spec.Nonce), Fee: qq(spec.MsgFee), Tokens: qq(spec.Amount), Data: []byte("m")})
 	case "rhcommit":
 		// spec.To names the runtime, spec.Node the committing node, spec.Amount the round
 		ec, err := n.rhCommitment(spec.To, spec.Amount, n.rhPrev[spec.To], spec.Node, spec.Sched, spec.Vote)
